@@ -338,6 +338,9 @@ const JSON_NONFINITE_FINDING: &str = "json-nonfinite-state";
 /// KNOWN_FINDINGS.txt `id=multinomialnb-nan-state-not-self-equal`: type MultinomialNB, stored feature_log_prob
 /// contains NaN, only the self / restored / refit equality clauses fail
 const MNB_NAN_FINDING: &str = "multinomialnb-nan-state-not-self-equal";
+/// KNOWN_FINDINGS.txt `id=ridge-alpha-zero-singular-nonfinite`: type RidgeRegression, alpha = 0 exactly, non-finite fitted
+/// state, only the self / restored / refit equality clauses or the JSON deserialisation fail
+const RIDGE_A0_FINDING: &str = "ridge-alpha-zero-singular-nonfinite";
 /// KNOWN_FINDINGS.txt `id=pca-eq-ignores-mu`: type PCA, training matrices differ, eigenvectors / eigenvalues
 /// identical within the relation's tolerance (`==` true), a probe row transformed differently
 const PCA_MU_FINDING: &str = "pca-eq-ignores-mu";
@@ -386,12 +389,13 @@ impl<'a> Case<'a> {
             return;
         }
         if self.nonfinite && self.tname == "RidgeRegression" && ridge_alpha_zero(&self.input) && matches!(oracle, "self_equality" | "bincode_restored_equal" | "refit_equal" | "json_deserialise") {
-            // OBSERVED on the current tree after repair 3eb9aad (reported to the coordinator, undecided): alpha = 0 with the
-            // Cholesky solver on rank-deficient rows (collinear / duplicated columns, e.g. x=[[1,1],[2,2],[3,3]]): the
-            // normal equations are singular, the factorisation does not notice, fit returns Ok with non-finite
-            // coefficients (normalize = true: also a NaN intercept, and `(NaN).abs() <= eps` makes the model unequal to
-            // itself).  With alpha > 0 the system is positive definite: any non-finite ridge model there is a failure.
-            let k = format!("observed:RidgeRegression:nonfinite-state(alpha=0,singular-normal-equations):{}", oracle);
+            // the listed finding ridge-alpha-zero-singular-nonfinite, exact predicate: type RidgeRegression, alpha = 0
+            // exactly, non-finite fitted state, one of the self / restored / refit equality clauses or the JSON
+            // deserialisation.  (alpha = 0 with the Cholesky solver on rank-deficient rows: the singular normal
+            // equations are not noticed, fit returns Ok with non-finite coefficients; normalize = true: NaN intercept
+            // too.)  With alpha > 0 the system is positive definite: any non-finite ridge model there is a failure.
+            self.out.known(RIDGE_A0_FINDING, "RidgeRegression with alpha = 0 (Cholesky) on rank-deficient rows returns Ok with non-finite state: its JSON cannot be read back; with normalize = true it does not equal itself, its bincode copy or a refit");
+            let k = format!("known:{}:{}", RIDGE_A0_FINDING, oracle);
             self.out.count(&k);
             return;
         }
